@@ -88,3 +88,31 @@ impl Default for Backref {
     #[verifier::external_body]
     fn default() -> Self { unimplemented!() }
 }
+
+// ---- assumed: arena reads (C17's owning_iovec half is checked by Kani on read_n_impl, bounded) ----
+#[verifier::external_type_specification]
+#[verifier::external_body]
+pub struct ExIoError(std::io::Error);
+#[verifier::external_trait_specification]
+pub trait ExRead {
+    type ExternalTraitSpecificationFor: std::io::Read;
+}
+#[verifier::external_body]
+struct ByteArena { _p: u8 }
+impl ByteArena {
+    // ASSUMED: returns at most `count` bytes (exactly what the reader delivered: C17, Kani harness c17_*)
+    #[verifier::external_body]
+    fn read_n<R: std::io::Read>(&mut self, src: R, count: usize, max_attempts: NonZeroUsize) -> (r: std::io::Result<AnchoredSlice>)
+        ensures r is Ok ==> r->Ok_0.contents().len() <= count
+    { unimplemented!() }
+}
+impl<'this> OwningIovec<'this> {
+    // ASSUMED: handing out the arena (and allocating / reading into it) does not change the logical stream
+    #[verifier::external_body]
+    fn arena(&mut self) -> (r: &mut ByteArena)
+        ensures final(self).bytes() == old(self).bytes(), final(self).pending() == old(self).pending()
+    { unimplemented!() }
+}
+// N9 alias for std::io::Error::other(e: DecodingError) (generic over Into<Box<dyn Error>>)
+#[verifier::external_body]
+fn io_error_other_dec(e: DecodingError) -> std::io::Error { unimplemented!() }
